@@ -331,6 +331,31 @@ func (p *Peer) ReadPacket() ([]byte, error) {
 	}
 }
 
+// AwaitKex reads until n key exchanges have completed (a re-exchange the
+// other side is known to be about to initiate); upper-layer packets that
+// arrive meanwhile are kept for ReadPacket.
+func (p *Peer) AwaitKex(n int) error {
+	for len(p.Kexes) < n {
+		pl, _, err := p.ReadRawPacket()
+		if err != nil {
+			return err
+		}
+		if len(pl) == 0 {
+			continue
+		}
+		switch pl[0] {
+		case MsgKexInit:
+			if err := p.kex(append([]byte(nil), pl...)); err != nil {
+				return err
+			}
+		case MsgIgnore, MsgDebug, MsgExtInfo:
+		default:
+			p.queued = append(p.queued, append([]byte(nil), pl...))
+		}
+	}
+	return nil
+}
+
 // ---- version exchange + key exchange ----
 
 // Handshake exchanges identification strings and runs the first key exchange.
